@@ -61,14 +61,15 @@ Theorem C18_no_space_canon_stable : forall p, no_space p = true -> canon_stable 
 Proof. exact no_space_canon_stable. Qed.
 Print Assumptions C18_no_space_canon_stable.
 
-Theorem C18_route_reload_unstable_refuted :
+(* after the fix "CanonicalPath is idempotent": the former witness "/a /b/.." reloads unchanged *)
+Theorem C18_route_reload_unstable_fixed :
   let R := route_ops (fun _ => true) in
   let r := {| r_pat := [47;97;32;47;98;47;46;46]; r_url := [114]; r_keep := false |} in
-  canon_stable (r_pat r) = false /\
-  m_tab (fst (fst (mrun R (restart R None, None) [MSave r; MFlush; MRestart]))) <>
+  canon_stable (r_pat r) = true /\
+  m_tab (fst (fst (mrun R (restart R None, None) [MSave r; MFlush; MRestart]))) =
   m_tab (fst (fst (mrun R (restart R None, None) [MSave r]))).
-Proof. exact route_reload_unstable_refuted. Qed.
-Print Assumptions C18_route_reload_unstable_refuted.
+Proof. exact route_reload_unstable_fixed. Qed.
+Print Assumptions C18_route_reload_unstable_fixed.
 
 (* the bytes: a fresh provider on the flushed file decodes exactly the flushed table *)
 Theorem C18_flush_reload : forall (T : Type) (encode : T -> bytes) (decode : bytes -> option T) (dflt : T) tgt tmp,
